@@ -22,6 +22,8 @@ CLAUSES = (
     'callers and reaches TaskTrigger\'s parameters in matching positions. '
     'the node-rewrite patterns of _proc_dep_pair (folded and probed with '
     'sample nodes) match their own node and no other node form. '
+    ''
+    'In the :finish expansion every node string carries name and offset once per output. '
     'Not decided: equivalence of parse results across renderings.')
 
 GP = 'graph_parser'
